@@ -343,7 +343,7 @@ class Plucker(SMUserList):
         #print('in append method')
         if not type(self) == type(x):
             raise ValueError("can pnly append Plucker object")
-        if len(x) > 1:
+        if len(x) != 1:
             raise ValueError("cant append a Plucker sequence - use extend")
         self.data.append(x.A)
 
